@@ -1271,7 +1271,10 @@ class Pool:
         pass
 
     def on_job_process_lost(self, job, pid, exitcode):
-        job._worker_lost = (monotonic(), exitcode)
+        if job._worker_lost is None:
+            # keep the first detection: the grace period starts there and
+            # the status is the one of the worker that ran the job.
+            job._worker_lost = (monotonic(), exitcode)
 
     def mark_as_worker_lost(self, job, exitcode):
         try:
